@@ -330,7 +330,11 @@ fn word_family() -> Vec<String> {
         cs[0] = cs[0].to_ascii_uppercase();
         out.insert(cs.into_iter().collect());
     }
-    for w in ["int", "inty", "in", "i", "i5", "i5x", "f1e", "f1e5", "f1e5x", "d1x", "truex", "none", "nonex", "i+5", "i-5", "i+", "f+1", "f1.", "f1.e5", "0x", "0xg", "0b2", "0o9", "0x1g"] {
+    for w in ["int", "inty", "in", "i", "i5", "i5x", "f1e", "f1e5", "f1e5x", "d1x", "truex", "none", "nonex", "i+5", "i-5", "i+", "f+1", "f1.", "f1.e5", "0x", "0xg", "0b2", "0o9", "0x1g",
+        // identifiers that look like spellings of non-finite or grouped numerals (they are identifiers)
+        "finf", "fNaN", "fnan", "finfinity", "f-inf", "f+NaN", "f-NaN", "dNaN", "dinf", "iinf", "inf", "NaN", "i1_000", "i1_", "i_1", "f1_", "f1_0",
+        "d2_5", "d_", "i1_000_000", "f1_0e5", "0x1_0", "i0x10", "f1f", "d1d", "f1e+", "i\u{ff11}", "i\u{661}", "f1.5f", "d1.5.5", "i1i1",
+    ] {
         out.insert(w.to_string());
     }
     out.into_iter().filter(|w| !w.is_empty()).collect()
